@@ -408,7 +408,7 @@ def dof_structure(ctx):
         mi = fresh_scalar("int", "max_iter")
         tol = fresh_scalar("real", "tolerance")
         st.assume(z3.And(mi >= 0, tol > 0))
-        info.update(n=n, d=d, INF=INFv)
+        info.update(n=n, d=d, INF=INFv, mi=mi)
         return dict(args=[st.new_arr(fresh_arr((n, d), "real", "data"))], kwargs=dict(tolerance=tol, max_iter=mi))
 
     def inv(v):
@@ -433,7 +433,8 @@ def dof_structure(ctx):
             g.append(("bisect-bracket-is-[1e-300,1e300]", z3.And(to_z3(a, "real") == z3.RealVal(10) ** -300, to_z3(b, "real") == z3.RealVal(10) ** 300)))
         return g
 
-    ctx.verify("", ST, "fit_mvstud", setup, post, extras=ex, loops={0: LoopSpec(inv, label="ecme")}, replayer="c19_student",
+    ctx.verify("", ST, "fit_mvstud", setup, post, extras=ex, loops={0: LoopSpec(inv, label="ecme", variant=(lambda v: ("int", info["mi"] - to_z3(v.state.env["i"], "int"))) if ctx.prop == "C18" else None)},
+               replayer="c19_student",
                allowed_raises=())
 
 
